@@ -74,8 +74,8 @@ func (wrapper EpochsHooksWrapper) AfterEpochEnd(
 			taskInfo, err := wrapper.keeper.GetTaskInfo(ctx, strconv.FormatUint(taskID, 10), taskAddr)
 			if err != nil {
 				ctx.Logger().Error("Failed to update task result statistics,GetTaskInfo call failed!", "task result", taskAddr, "error", err)
-				// Handle the error gracefully, continue to the next
-				// continue
+				// Handle the error gracefully, continue to the next: taskInfo is nil here
+				continue
 			}
 			diff := types.Difference(taskInfo.OptInOperators, signedOperatorList)
 			taskInfo.SignedOperators = signedOperatorList
